@@ -178,6 +178,21 @@ impl<T: Chunky> Check for IntervalCheck<T> {
                     };
                     if len == 0 {
                         push(guarded(|| T::fresh()), Arc::new(Prov::New), &mut nodes, &mut found);
+                        // empty chunks merged with each other (any bracketing): closure of R(ε)
+                        for _round in 0..3 {
+                            let snapshot: Vec<Node<T>> = nodes.clone();
+                            let before = nodes.len();
+                            for a in snapshot.iter() {
+                                for b in snapshot.iter() {
+                                    merges += 1;
+                                    let (x, y) = (a.st.clone(), b.st.clone());
+                                    push(guarded(move || { let mut x = x; x.merge_(&y); x }), Arc::new(Prov::Merge(a.prov.clone(), b.prov.clone())), &mut nodes, &mut found);
+                                }
+                            }
+                            if nodes.len() == before {
+                                break;
+                            }
+                        }
                     } else {
                         push(guarded(|| T::collect(&items)), Arc::new(Prov::Collect(0, len)), &mut nodes, &mut found);
                         'outer: for m in 1..len {
@@ -201,15 +216,18 @@ impl<T: Chunky> Check for IntervalCheck<T> {
                         }
                         // closure under merging with the empty estimator (empty chunks anywhere
                         // in the tree); two rounds suffice unless the identity law is broken
+                        let empties = &r[&Vec::new()];
                         for _round in 0..2 {
                             let snapshot: Vec<Node<T>> = nodes.clone();
                             let before = nodes.len();
                             for a in snapshot.iter() {
-                                merges += 2;
-                                let x = a.st.clone();
-                                push(guarded(move || { let mut x = x; x.merge_(&T::fresh()); x }), Arc::new(Prov::Merge(a.prov.clone(), Arc::new(Prov::New))), &mut nodes, &mut found);
-                                let x = a.st.clone();
-                                push(guarded(move || { let mut e = T::fresh(); e.merge_(&x); e }), Arc::new(Prov::Merge(Arc::new(Prov::New), a.prov.clone())), &mut nodes, &mut found);
+                                for e in empties.iter() {
+                                    merges += 2;
+                                    let (x, y) = (a.st.clone(), e.st.clone());
+                                    push(guarded(move || { let mut x = x; x.merge_(&y); x }), Arc::new(Prov::Merge(a.prov.clone(), e.prov.clone())), &mut nodes, &mut found);
+                                    let (x, y) = (a.st.clone(), e.st.clone());
+                                    push(guarded(move || { let mut y = y; y.merge_(&x); y }), Arc::new(Prov::Merge(e.prov.clone(), a.prov.clone())), &mut nodes, &mut found);
+                                }
                             }
                             if nodes.len() == before {
                                 break;
